@@ -1,6 +1,7 @@
 """C10 - Waiting for a signal wakes up for that signal, and only for it."""
 from harness.props.session import *
 from harness.gen.sessions import gen_case, SidCounter
+from harness.props import objects
 
 THEOREM_NOTE = ("Props/C10.lean: a waiting call ends released only after a signal of exactly the awaited class was taken since the call began (at any nesting), or unreleased only "
                 "when its level was stopped; tickets are created unmarked; one dispatch marks every outstanding waiter of the class; a marked ticket returns at the next check "
@@ -9,7 +10,8 @@ ASSUMPTIONS = ASSUME_SESSION
 RULE = ("[thorough tier adds the small-scope exhaustive enumeration of harness/gen/exhaustive.py: every loop program with a <= 2-action and a <= 1-action handler over a 10-action alphabet, 3 663 programs] loop-mode programs with waits nested in handlers (wait inside wait, non-waiting inside waiting and vice versa), several simultaneous waiters on one class, the awaited "
         "signal dispatched by an inner call; generic loop/app sessions; oracle: between entry and normal return of process_signals(return_after=C) a handler of class C ran or "
         "the level was stopped; the non-waiting form dispatches one priority only and never blocks; non-trivial = a waiting call that returned"
-        ' Later rounds: waits whose awaited signal is dispatched one or two nested loops further down; oracle: a wait that is still blocked although the awaited class was dispatched and the handler finished.')
+        ' Later rounds: waits whose awaited signal is dispatched one or two nested loops further down; oracle: a wait that is still blocked although the awaited class was dispatched and the handler finished.'
+        ' Object level: the real TicketMachine class under arbitrary take / check / mark sequences (random, and exhaustive up to length 3, thorough 4, over two lines) compared call by call and in its final dictionary with Model/Objects.lean; oracle: a ticket is ready exactly when its line was marked since it was taken, once.')
 
 
 def gen_c10(rnd, sid):
@@ -55,7 +57,9 @@ def generate(rnd, tier):
     if tier == "thorough":
         from harness.gen.exhaustive import loop_programs
         cases += list(loop_programs(sid))          # small-scope exhaustive: 3 663 programs
-    return [with_cc(c) for c in cases]
+    # the TicketMachine class on its own, driven by arbitrary call sequences (Model/Objects.lean, Props/C10b.lean)
+    tm = objects.gen_tm(rnd, 600 if tier == "quick" else 8000) + list(objects.tm_exhaustive(3 if tier == "quick" else 4))
+    return [with_cc(c) for c in cases] + tm
 
 
 def corpus():
@@ -122,3 +126,7 @@ def monitor(case, obs):
 
 def nontrivial(case, obs):
     return any(ev[0] == "api<" and ev[1] == "proc" for ev, ctx in obs["xlog"])
+
+
+LEAN_MODULES = ["C10"]  # TODO C10b
+objects.install(globals(), ("tm",))
